@@ -27,7 +27,7 @@ for line in res.splitlines():
 files={"patch":"patch.diff","notes":"notes.md"}
 if os.path.exists(d+'/demo.rs'): files["demonstration"]="demo.rs"
 if os.path.exists(d+'/demo.patch.diff'): files["demonstration"]="demo.patch.diff"
-meta={"property_id":p,"seed":dest,"round":2,"files":files,"what_it_breaks":notes[:400].replace("\n"," "),
+meta={"property_id":p,"seed":dest,"round":int(os.environ.get("ROUND","3")),"files":files,"what_it_breaks":notes[:400].replace("\n"," "),
  "confirmed_by_me":{"how":"tools/verify_seed.sh (scratch worktree of /repo HEAD outside /repo and /verif, removed afterwards): demo passes on HEAD and fails with the patch; cargo test --workspace with the patch: 172 passed"},
  "checks_run":"tools/try_seed.sh (git -C /repo apply; ./check; git -C /repo checkout -- .)","caught_by":caught}
 json.dump(meta,open(d+'/meta.json','w'),indent=1)
